@@ -70,8 +70,10 @@ PROFILES = {
                         p_catch=0.4, nseg=(2, 4)),
     "ctxfaults": dict(BASE, ctx_types=("async",), p_ctx=0.5, flush_modes=("ok", "itemerr", "raise"), p_raise=0.12,
                       p_catch=0.4, p_result=0.5),
-    "override": dict(BASE, ctx_types=("override", "attr", "async"), p_ctx=0.5, nvars=2, p_read=0.5),
-    "overridesync": dict(BASE, ctx_types=("override", "attr"), p_ctx=0.5, nvars=2, p_read=0.5, p_sync=0.25),
+    "override": dict(BASE, ctx_types=("override", "attr", "async", "oapi"), p_ctx=0.5, nvars=2, p_read=0.5),
+    "overridesync": dict(BASE, ctx_types=("override", "attr", "oapi"), p_ctx=0.5, nvars=2, p_read=0.5, p_sync=0.25),
+    "overrideapi": dict(BASE, ntasks=(3, 8), ctx_types=("oapi", "oapi", "override"), p_ctx=0.55, nvars=1, p_read=0.6, p_share=0.3, p_reyield=0.1,
+                        nseg=(2, 4)),
     "overridefaults": dict(BASE, ctx_types=("override", "attr"), p_ctx=0.5, nvars=2, p_read=0.4,
                            flush_modes=("ok", "itemerr", "raise"), p_raise=0.12, p_catch=0.4),
     "nonasync": dict(BASE, ctx_types=("nonasync", "async"), p_ctx=0.5),
@@ -108,7 +110,7 @@ PROFILES = {
     "basefaults": dict(BASE, p_raise=0.25, p_raiseb=0.6, p_catch=0.6, p_share=0.1, p_sync=0.1, ctx_types=("async",), p_ctx=0.2,
                        flush_modes=("ok", "itemerr")),
     "spawnsync": dict(BASE, ntasks=(3, 8), p_spawn=0.35, p_sync=0.35, p_task=0.4, p_item=0.3, p_catch=0.3, p_raise=0.08),
-    "overridedag": dict(BASE, ntasks=(3, 8), ctx_types=("override", "attr"), p_ctx=0.5, nvars=2, p_read=0.6, p_share=0.35, p_reyield=0.1,
+    "overridedag": dict(BASE, ntasks=(3, 8), ctx_types=("override", "attr", "oapi"), p_ctx=0.5, nvars=2, p_read=0.6, p_share=0.35, p_reyield=0.1,
                         nkinds=(1, 2)),
     "overrideset": dict(BASE, ctx_types=("override", "attr"), p_ctx=0.5, nvars=2, p_read=0.5, p_set=0.5, p_share=0.1),
     "again": dict(BASE, ntasks=(2, 7), nseg=(2, 4), nleaf=(1, 4), p_rep=0.35, p_reuse=0.35, p_lazy=0.15, p_lazyfail=0.05, p_share=0.1, p_reyield=0.2,
@@ -248,7 +250,7 @@ class Gen(object):
                         ops.append(op("exit", open_ctx.pop()))
                     elif len(open_ctx) < 3:
                         ty = r.choice(p["ctx_types"])
-                        var = r.randint(1, p["nvars"]) if ty in ("override", "attr") else 0
+                        var = r.randint(1, p["nvars"]) if ty in ("override", "attr", "oapi") else 0
                         if ty == "cleanup":
                             u = self.alloc()
                             if u is None:
@@ -555,6 +557,33 @@ def enum_dedup(max_len=3, bodies=(1, 2), nactors=2, bind="fn", key=1, spell0=0, 
                 tasks[aid - 1] = {"segs": segs}
             tasks[0] = {"segs": [seg([], term("yield", S("Lst", 0, leaves))), seg([], term("return"))]}
             progs.append(program(tasks, kinds=[kind() for _ in range(max(1, body_kind))]))
+    return progs
+
+
+def enum_shared_override():
+    """Complete small family for C07: a task S with its own override block (entered before a blocking yield, read before
+    and after it) is awaited by two parents A and B that override the same variable - with S's value or another one -
+    and reach S in the same round or one flush round apart (so S is started below one parent and resumed below the
+    other); every combination of context flavour (recording subclass / public API), values, who waits first, and
+    one or two batch kinds."""
+    progs = []
+    for ty in ("oapi", "override"):
+        for pty in ("oapi", "override"):
+            for va, vb, vs in itertools.product((10, 20), repeat=3):
+                for delay_a, delay_b in ((0, 1), (1, 0), (0, 0), (1, 1)):
+                    for ks in (1, 2):
+                        ctxs = [ctx(pty, 1, va), ctx(pty, 1, vb), ctx(ty, 1, vs)]
+
+                        def parent(c, delay):
+                            segs = [seg([op("enter", c), op("read", 1)], term("yield", S("I", 1) if delay else S("N")))]
+                            segs.append(seg([op("read", 1)], term("yield", S("T", 4))))
+                            segs.append(seg([op("read", 1), op("exit", c)], term("return")))
+                            return {"segs": segs}
+                        shared = {"segs": [seg([op("enter", 3), op("read", 1)], term("yield", S("I", ks))),
+                                           seg([op("read", 1), op("exit", 3), op("read", 1)], term("return"))]}
+                        root = {"segs": [seg([], term("yield", S("Tup", 0, [S("T", 2), S("T", 3)]))), seg([op("read", 1)], term("return"))]}
+                        progs.append(program([root, parent(1, delay_a), parent(2, delay_b), shared],
+                                             kinds=[kind(), kind()], ctxs=ctxs, nvars=1))
     return progs
 
 
